@@ -13,8 +13,8 @@ Definition in_bases (i : term) : list profile := map profile_of (gl (gn i 2)).
 (* ---- encoding of the observable (must match harness/cmd/c07.go c07DumpMerged / top) ---- *)
 Definition of_frames (p : profile) (s : sample) : term :=
   TL (map (fun id => match find_location p id with
-                     | Some l => TL [TZ (l_addr l); of_ss (loc_names p id)]
-                     | None => TL [TZ 0; TL []]
+                     | Some l => TL [TZ (l_addr l); of_ss (loc_names p id); of_ss (loc_files p id)]
+                     | None => TL [TZ 0; TL []; TL []]
                      end) (s_loc s)).
 
 Definition of_merged_sample (p : profile) (s : sample) : term :=
@@ -139,7 +139,8 @@ Definition observed_of (o : term) : option observed :=
     Some {| o_types := map vt_of (gl (gn d 0));
             o_nsamples := List.length (gl (gn d 4));
             o_reports := map report_of_term (gl (gn o 2));
-            o_reports2 := map report_of_term (gl (gn o 3)) |}
+            o_reports2 := map report_of_term (gl (gn o 3));
+            o_frames := flat_map (fun sm => map (fun fr => (gz (gn fr 0), gss (gn fr 1), gss (gn fr 2))) (gl (gn sm 0))) (gl (gn d 4)) |}
   else None.
 
 Definition spec_C07 (i o : term) : bool :=
